@@ -874,7 +874,10 @@ func crossFacts(s *src, f *facts) {
 					skips = true
 				}
 			}
-			every = direct && !skips
+			// …and the loop does nothing else: convert, check, store (a serializer-specific pre-check — `arg.(float64)` — would
+			// make the outcome depend on which dynamic type the decoder produced)
+			asserts := len(all[*ast.TypeAssertExpr](l.Body, nil)) + len(all[*ast.TypeSwitchStmt](l.Body, nil))
+			every = direct && !skips && len(l.Body.List) == 3 && asserts == 0
 		}
 	}
 	f.b("clConvertsEveryArg", every, "")
